@@ -115,6 +115,20 @@ func checkGetPromptShape(c *Ctx, r *Report) {
 		}
 	}
 	if worker == nil {
+		// the exchange moved into an unexported method of the package that the worker calls exactly once
+		for _, f := range append([]*ssa.Function{fn}, AnonFuncsDeep(fn)...) {
+			for _, ci := range callInstrs(f) {
+				h := ci.Common().StaticCallee()
+				if h == nil || h.Pkg != fn.Pkg || h.Object() == nil || h.Object().Exported() || h == fn {
+					continue
+				}
+				if len(staticCallsTo(h, rup)) > 0 && len(staticCallsTo(f, h)) == 1 && !inLoop(ci.Block()) {
+					worker = h
+				}
+			}
+		}
+	}
+	if worker == nil {
 		r.Bad(rule, construct, c.Pos(fn.Pos()), "GetPrompt does not read until the prompt")
 		return
 	}
